@@ -323,8 +323,11 @@ func runC06(c *Ctx) {
 				if m := c.E(mu.Map); m.Op == "field" && m.Name == "write" && c.E(mu.Key).V == pid {
 					inserted = true
 				}
-				if mm, ok := mu.Map.(*ssa.MakeMap); ok && c.E(mu.Key).V == pid {
-					_ = mm
+				_, isMk := mu.Map.(*ssa.MakeMap)
+				if call, isCall := mu.Map.(*ssa.Call); isCall && returnsFreshMap(c, call.Call.StaticCallee(), 0) {
+					isMk = true // the update map made by a copying helper
+				}
+				if isMk && c.E(mu.Key).V == pid {
 					if _, ok := Match(c.RoleCall("pcache.index"), c.E(mu.Value)); ok {
 						entered = true
 						// every publication is after this update
@@ -634,14 +637,21 @@ func isFreshMap(c *Ctx, x *X) bool {
 	if x.Op == "makemap" {
 		return true
 	}
+	if call, ok := strip(x).V.(*ssa.Call); ok && x.Op != "param" && returnsFreshMap(c, call.Call.StaticCallee(), 0) {
+		return true
+	}
 	vals, _ := c.ActualsAt(x)
 	if len(vals) == 0 {
 		return false
 	}
 	for _, v := range vals {
-		if v.Op != "makemap" {
-			return false
+		if v.Op == "makemap" {
+			continue
 		}
+		if call, ok := strip(v).V.(*ssa.Call); ok && returnsFreshMap(c, call.Call.StaticCallee(), 0) {
+			continue // made for the caller by a helper that returns a fresh map
+		}
+		return false
 	}
 	return true
 }
